@@ -93,6 +93,11 @@ def run_case(M, kind, arg):
         enc = call(D.Boolean.encode, arg)
         dec = call(D.Boolean.decode, enc)
         return "CBool %s %s %s" % (str(arg).lower(), cstr(enc), copt(dec, lambda b: str(b is True).lower()))
+    if kind == "boolenc":
+        if isinstance(arg, bool): cin, val = "(BBool %s)" % str(arg).lower(), arg
+        elif isinstance(arg, str): cin, val = "(BStr %s)" % cstr(arg), arg
+        else: cin, val = "BOther", eval(arg[1])
+        return "CBoolEnc %s %s" % (cin, copt(call(D.Boolean.encode, val), cstr))
     if kind == "booldec":
         dec = call(D.Boolean.decode, arg)
         return "CBoolDec %s %s" % (cstr(arg), copt(dec, lambda b: str(b is True).lower()))
@@ -137,7 +142,7 @@ def run_case(M, kind, arg):
     raise Skip("unknown kind " + kind)
 
 
-UNIT_KINDS = ("unitstr", "unitdec")
+UNIT_KINDS = ("unitstr", "unitdec", "unitfloat", "unitconv")
 
 
 def c_dec(d):
@@ -164,6 +169,20 @@ def run_unit_case(M, kind, arg):
         enc = call(str, u)
         back = call(U, enc)
         return "CUnitStr %s %s %s %s" % (c_dec(u.value), cstr(u.unit), cstr(enc), copt(abs_unit(back)))
+    if kind == "unitfloat":
+        u = call(U, arg)
+        return "CUnitFloat %s %s" % (cstr(repr(arg)), "None" if u is None or not u.value.is_finite() else "(Some %s)" % c_dec(u.value))
+    if kind == "unitconv":
+        value, unit, dpi = arg
+        u = call(U, Decimal(value), unit)
+        if u is None:
+            raise Skip("Unit() refused the value")
+        ok, r = limited(lambda: u.convert("px", dpi))
+        if not ok and not isinstance(r, (NotImplementedError, ValueError, TypeError)):
+            raise Skip(repr(r))
+        if ok and (r.unit != "px" or r.value != r.value.to_integral_value()):
+            raise Skip("convert returned %r" % (r,))
+        return "CUnitConv %s %s %s %s" % (c_dec(u.value), cstr(unit), cz(dpi), "None" if not ok else "(Some %s)" % cz(int(r.value)))
     out = call(U, arg)
     return "CUnitDec %s %s" % (cstr(arg), copt(abs_unit(out)))
 
@@ -255,6 +274,8 @@ def klass(kind, arg):
 
 
 def unit_klass(kind, arg):
+    if kind in ("unitfloat", "unitconv"):
+        return "Unit." + kind[4:]
     if kind == "unitstr":
         v = arg[0]
         d = Decimal(v) if isinstance(v, str) else Decimal(str(v))
@@ -356,6 +377,8 @@ def gen_inputs(tier, rng, css):
             for tup in itertools.product("PT1DS.-", repeat=n): add("durdec", "".join(tup))
     # ---- booleans
     add("bool", True); add("bool", False)
+    for t in [True, False, "true", "false", "True", "FALSE", "tRuE", "on", "", "1", " true", "truе", "TRUE\n", ("other", "1"), ("other", "0"), ("other", "b'true'"), ("other", "None"), ("other", "1.0")]:
+        add("boolenc", t)
     for t in ["true", "false", "True", "False", "TRUE", "1", "0", "", " true", "true ", "yes", "tru", "truee", "true", "fa1se"]: add("booldec", t)
     # ---- dates
     years = [1, 2, 4, 99, 100, 400, 999, 1000, 1582, 1899, 1900, 1970, 2000, 2023, 2024, 2100, 9998, 9999]
@@ -450,6 +473,17 @@ def gen_unit_inputs(tier, rng):
     for _ in range(100 if q else 5000):
         d = Decimal((rng.randint(0, 1), tuple(rng.randint(0, 9) for _ in range(rng.randint(1, 12))), rng.randint(-12, 4)))
         inp.append(("unitstr", (str(d), rng.choice(["cm", "mm", "in", "pt", "pc", "px"]))))
+    for v in [0.0, 1.0, 3.14, -2.5, 1e-7, 1e22, 0.1, 123456789.123456789, 5e-324, 1e16, -0.0, 2.54, 1e-5, 0.0001]:
+        inp.append(("unitfloat", v))
+    for _ in range(30 if q else 2000):
+        inp.append(("unitfloat", rng.choice([rng.random(), rng.uniform(-100, 100), rng.uniform(-1, 1) * 10 ** rng.randint(-20, 20)])))
+    for value in ["1", "2.54", "10", "0.0254", "5.08", "-1", "3", "0", "0.5", "21.0", "29.7", "1.27", "100", "7.62", "-2.54", "0.01", "1E+1"]:
+        for unit in ("cm", "in", "mm", "pt"):
+            for dpi in (72, 96, 127, 254, 300, 1, 0, -72):
+                inp.append(("unitconv", (value, unit, dpi)))
+    for _ in range(40 if q else 3000):
+        d = Decimal((rng.randint(0, 1), tuple(rng.randint(0, 9) for _ in range(rng.randint(1, 10))), rng.randint(-8, 1)))
+        inp.append(("unitconv", (str(d), rng.choice(["cm", "in"]), rng.choice([72, 96, 127, 254, 300, 600, rng.randint(1, 2400)]))))
     for t in UNIT_HAND:
         inp.append(("unitdec", t))
     for _ in range(200 if q else 10000):
